@@ -41,8 +41,8 @@ def integrate(
     primary_stencil_width = len(primary_stencil)
 
     integrated_signal = np.empty_like(signal)
-    integrated_signal[0] = start_value
     integrated_signal[:] = 0.0
+    integrated_signal[0] = start_value
 
     number_of_constant_time_steps = 0
     prev_dt = time[1] - time[0]
